@@ -1,4 +1,5 @@
 SPECIFICATION Spec
+CONSTANT Async = FALSE
 INVARIANT NoCrash
 INVARIANT AtMostOne
 INVARIANT ForgetSilent
